@@ -155,7 +155,8 @@ def r3_seat_range(ctx):
     rk = f.params[0]
 
     def rn(e):
-        if isinstance(e, ast.Call) and astx.u(e.func) == "len" and e.args and astx.u(elect.flatten_base(e.args[0])) == rk:
+        cb = elect.counted_base(e)
+        if cb is not None and astx.u(cb) == rk:
             return "NC"
         return None
     good = obligation(ctx, f, "row 18: the top-m selector rejects m < 1 or m > number of ranked candidates (ValueError)",
@@ -163,7 +164,11 @@ def r3_seat_range(ctx):
     # ... before anything is elected
     loops = [n for n in astx.walk_own(f.node) if isinstance(n, ast.While)]
     rs = [r for r in astx.raises_in(f.node) if not astx.enclosing(r, astx.parents(f.node), ast.While)]
-    ctx.check(bool(loops) and len(rs) >= 2 and all(r.lineno < loops[0].lineno for r in rs), f, loops[0] if loops else f.node,
+    # (the two range rejections; a rejection after the loop - e.g. "tie cannot be broken" - is not a range check)
+    N18 = Normalizer(f.node, rename=rn, inline=False, int_atoms=INT)
+    pm18 = astx.parents(f.node)
+    range_rs = [r for r in rs if any(("NC" in l or re.search(r"ge\(m, 1\)", l)) for l in literals(N18.conj(astx.path_condition(f.node, r, pm18, carried=False))))]
+    ctx.check(bool(loops) and len(range_rs) >= 2 and all(r.lineno < loops[0].lineno for r in range_rs), f, loops[0] if loops else f.node,
               "the selector's range checks precede the election loop", "", "range checks do not precede the election loop")
     f = prog.find_func("Alaska.__init__")
     obligation(ctx, f, "row 19: Alaska rejects m_1 < 1", "m_1 < 1", "ValueError", int_atoms=INT, before_super=True)
